@@ -812,6 +812,7 @@ def gen_dag_model(draw, ncells=(4, 7), items=True, uncached=True, none_points=Fa
              "allow_none": None, "form": form, "tick": True}
         if form == "deflines":
             c["terms"] = terms
+            c["guards"] = [draw(st.sampled_from([0, 0, 1, 2])) for _ in terms]
         emit(["new_cells", p, c])
         cells.append((p, c["name"], nparams))
     return ops, G, {"cells": cells, "top": cells[-1]}
